@@ -416,8 +416,10 @@ func verifH_C18_value_and_pointer() {
 	if verifChoose("export", 2) == 1 {
 		opts = append(opts, CreateComponentSchemas(ExportComponentSchemasOptions{ExportComponentSchemas: true}))
 	}
+	isValueThenPointer := false
 	switch verifChoose("type", 5) {
 	case 0:
+		isValueThenPointer = true
 		ref, err = NewSchemaRefForValue(&verifValueThenPointer{}, comps, opts...)
 		enc = map[string]any{"a": inner, "b": ptr}
 	case 1:
@@ -443,6 +445,8 @@ func verifH_C18_value_and_pointer() {
 		verifAssert(verifResolveGen(c, comps, 0), "C18 value and pointer: every $ref in a generated component names a component")
 	}
 	if root.Value != nil {
+		// known finding: with component export a struct met by value first is referred to by a bare $ref from the pointer position, which cannot say nullable
+		verifKnown("C18-export-null-pointer-after-value-use", len(opts) > 0 && ptr == nil && ref != nil && enc != nil && isValueThenPointer)
 		verifAssert(root.Value.VisitJSON(enc) == nil, "C18 value and pointer: the generated schema accepts the encoding of the value (a nil pointer is null whatever else uses the struct type)")
 	}
 	verifReach("end")
